@@ -108,6 +108,12 @@ def verify_function(c, seed=0, timeout_ms=20000, only_labels=None):
                 ex.fname = ex.fname + '#' + scen.get('name', str(si))
             run_scenario(ex, fnode, c, scen)
             res.obligations.extend(ex.obligations)
+            if getattr(ex, 'inconsistent', 0) or (not ex.exits and all(o.status == 'discharged' for o in ex.obligations)):
+                # vacuity guard: a path died of inconsistent hypotheses, or no path reached an exit
+                res.obligations.append(Obligation('%s/vacuity:paths-reach-an-exit' % ex.fname, 'vacuity', 'paths-reach-an-exit',
+                                                  tuple(c.serves), 'unknown', None, 0.0, 0, ex.fname,
+                                                  '%d path(s) ended with inconsistent hypotheses, exits %r: a contract or model on the way is '
+                                                  'contradictory' % (getattr(ex, 'inconsistent', 0), ex.exits)))
             res.paths += ex.npaths
             for k, v in ex.exits.items():
                 res.exits[k] = res.exits.get(k, 0) + v
@@ -319,7 +325,10 @@ def run_scenario(ex, fnode, c, scen):
         if kind == 'return' and c.post_facts:
             envl = S.Env(ex, ex.store, dict(ex.names), this_path, extra)
             for e in c.post_facts:
-                ex.assume(S.spec_eval(e, envl, ex2))
+                try:
+                    ex.assume(S.spec_eval(e, envl, ex2))
+                except NameError:
+                    continue       # a local the instance mentions does not exist on this path (early return): no help here
                 ex.assumed.add('lemma instance: ' + e)
         S.MODE[0] = 'prove'
         if kind == 'return':
